@@ -241,8 +241,12 @@ class C10(core.Check):
             lay = None
             if w is not None:
                 full = e.get_text()[0]
-                lay = e.layout.layout(full, w, e.align, e.wrap)
                 ob["disp"] = list(full) if isb else full
+                try:
+                    lay = e.layout.layout(full, w, e.align, e.wrap)
+                except Exception as ex:      # noqa: BLE001 - judged by the oracle
+                    lay = [[]]
+                    ob["layout_exc"] = type(ex).__name__
             lays.append(lay)
             err, ret = None, None
             try:
@@ -453,6 +457,9 @@ class C10(core.Check):
             w = st[-1] if kind != "setpos" else None
             if so["err"] is not None:
                 msgs.append(f"{tag}: raised {so['err']}")
+                return msgs
+            if ob.get("layout_exc"):
+                msgs.append(f"{tag}: laying out the displayed text at width {w} raised {ob['layout_exc']}")
                 return msgs
             # ---- offset range / character boundary (pos_inv)
             if not (0 <= np_ <= len(nt)):
